@@ -1314,6 +1314,16 @@ func (e *SpecEnv) resolveType(x ast.Expr) (types.Type, error) {
 			return nil, err
 		}
 		return types.NewPointer(el), nil
+	case *ast.MapType:
+		k, err := e.resolveType(n.Key)
+		if err != nil {
+			return nil, err
+		}
+		v, err := e.resolveType(n.Value)
+		if err != nil {
+			return nil, err
+		}
+		return types.NewMap(k, v), nil
 	}
 	return nil, fmt.Errorf("cannot resolve spec type %T", x)
 }
